@@ -13,6 +13,8 @@ DESCRIPTION = [
     "month counters (m_*, grundr_*zeiten, monate_elterngeldbezug) >= 0 and <= 12*60; arbeitsstunden_w 0..168",
     "money inputs >= 0 except eink_vermietung_m; counts 0..10 (children) / 1..20 (persons in a unit)",
     "kind => not rentner",
+    "mietstufe within the levels defined in the Wohngeld rent table of the date; wohnfläche_hh >= 1 m2",
+    "retirement not before age 20 (jahr_renteneintr >= geburtsjahr + 20) and not after age 100",
 ]
 
 RANGES = {
@@ -35,6 +37,29 @@ RANGES = {
     "p_id": (0, None),
 }
 FREE_SIGN = {"eink_vermietung_m"}
+DYNAMIC = {}     # ranges that depend on the parameters of the date (set by `use_params`)
+
+
+def use_params(P):
+    """date-dependent documented ranges: the Mietstufen that exist in the rent table"""
+    DYNAMIC.clear()
+    try:
+        t = P["wohngeld"]["max_miete"]
+
+        def leaf_keys(x):
+            if isinstance(x, dict) and x and all(not isinstance(v, dict) for v in x.values()):
+                return [k for k in x if isinstance(k, int)]
+            if isinstance(x, dict):
+                for v in x.values():
+                    ks = leaf_keys(v)
+                    if ks:
+                        return ks
+            return []
+        ks = leaf_keys(t)
+        if ks:
+            DYNAMIC["mietstufe"] = (min(ks), max(ks))
+    except Exception:   # noqa: BLE001
+        pass
 
 
 def scalar(name, sym, single_person=True):
@@ -44,8 +69,10 @@ def scalar(name, sym, single_person=True):
         return []
     if name.startswith("p_id_"):
         return [t == -1] if single_person else [t >= -1]
-    if name in RANGES:
-        lo, hi = RANGES[name]
+    if name == "wohnfläche_hh":
+        return [t >= 1]
+    if name in RANGES or name in DYNAMIC:
+        lo, hi = DYNAMIC.get(name) or RANGES[name]
         cs = []
         if lo is not None:
             cs.append(t >= lo)
@@ -69,4 +96,6 @@ def inputs(syms, single_person=True):
         cs += scalar(n.split("#")[0], s, single_person)
     if "kind" in syms and "rentner" in syms:
         cs.append(z3.Implies(syms["kind"].t, z3.Not(syms["rentner"].t)))
+    if "jahr_renteneintr" in syms and "geburtsjahr" in syms:
+        cs += [syms["jahr_renteneintr"].t >= syms["geburtsjahr"].t + 20, syms["jahr_renteneintr"].t <= syms["geburtsjahr"].t + 100]
     return cs
